@@ -71,18 +71,44 @@ theorem C20_waiter_token_registered (s : St) (fd : Fd) (tok : Tok) (h : (addRead
 re-armed in between). -/
 theorem C20_event_reports_registered_token (s : St) (fd : Fd) (e : KEnt) (hk : aget s.K fd = some e) (hr : e.r = true)
     (ha : s.armed = []) : (readyRead s fd).2 = [e.tok] := by
-  simp [readyRead, evStep, ha, hk, hr, has, onEvent]
+  simp [readyRead, pollOrder, evStep, ha, hk, hr, has, onEvent]
 
 /-- Readiness of one descriptor reports nothing for a descriptor that is not registered for reading. -/
 theorem C20_no_cross (s : St) (fd : Fd) (ha : s.armed = []) (hk : (aget s.K fd).all (fun e => !e.r) = true) :
     (readyRead s fd).2 = [] := by
   cases hkk : aget s.K fd with
-  | none => simp [readyRead, evStep, ha, hkk, has]
+  | none => simp [readyRead, pollOrder, evStep, ha, hkk, has]
   | some e =>
     rw [hkk] at hk; simp at hk
-    simp [readyRead, evStep, ha, hkk, hk, has]
+    simp [readyRead, pollOrder, evStep, ha, hkk, hk, has]
 
 -- the history that failed before the fix: a second waiter on an already registered descriptor
 example : (readyRead (addRead (readyRead (addRead {} 5 111).1 5).1 5 222).1 5).2 = [222] := by decide
+
+/-- An armed entry with write interest gets a writable event, carrying its registered token, at the
+next poll — whichever descriptor's readability triggered that poll. -/
+theorem C20_armed_write_reported (s : St) (f fd : Fd) (e : KEnt) (ha : has s.armed f = true)
+    (hk : aget s.K f = some e) (hw : e.w = true) : e.tok ∈ writableToks s fd := by
+  have hmem : ∀ (l : List Nat), has l f = true → f ∈ l := by
+    intro l
+    induction l with
+    | nil => intro h; simp [has] at h
+    | cons y ys ih =>
+      intro h
+      unfold has at h
+      by_cases hy : f = y
+      · subst hy; exact List.mem_cons_self
+      · simp only [hy, if_false] at h; exact List.mem_cons_of_mem _ (ih h)
+  unfold writableToks
+  rw [List.mem_filterMap]
+  refine ⟨f, ?_, by simp [hk, hw, ha]⟩
+  unfold pollOrder
+  apply List.mem_append_left
+  rw [List.mem_filter]
+  exact ⟨hmem _ ha, by simp [hk, hw]⟩
+
+-- the history of the seeded change that kept a stale write record after an event carrying both
+-- flags: read wait, write wait, readable edge (both flags), write wait again → woken again
+example : (writableToks (addWrite (readyRead (addWrite (addRead {} 5 111).1 5 111).1 5).1 5 111).1 5) = [111] := by decide
 
 end Oc.Props.C20
